@@ -265,6 +265,28 @@ class deadline:
         return False
 
 
+def fork_safe() -> bool:
+    """False once this process runs extra threads (polars' pool after a DataFrame operation, most likely): children
+    forked from it can block for ever in a futex"""
+    try:
+        return len(os.listdir("/proc/self/task")) <= 8        # (the harness itself keeps a few helper threads)
+    except OSError:
+        return True
+
+
+def assert_fork_safe(where: str):
+    """a pool must never be forked from a parent that has run polars code: that is a harness bug (some code path ran a
+    worker function inline in the parent) and would make the check hang; fail loudly instead"""
+    if not fork_safe():
+        raise MachineryError(f"{where}: the check's parent process runs {len(os.listdir('/proc/self/task'))} threads "
+                             f"(a worker function was run inline in the parent?) — refusing to fork a pool from it")
+
+
+def isolated(fn, arg):
+    """`fn(arg)` in a worker process, never in the parent (see fork_safe)"""
+    return pool_map(fn, [arg] * 4)[0]
+
+
 def pool_map(fn, items, chunksize=4, procs=None):
     """Run fn over items in worker processes (fork). fn must be a module-level function."""
     import multiprocessing as mp
@@ -278,6 +300,7 @@ def pool_map(fn, items, chunksize=4, procs=None):
     # fork: workers inherit the module globals the property modules prepare in the parent (e.g. c15._BASE).  A parent
     # that has run polars code carries its thread pool and forked children can hang — so no code path may run a worker
     # function inline in the parent before a later pool (layfamily._in_pool, crosscorr._pool take care of theirs).
+    assert_fork_safe("pool_map")
     ctx = mp.get_context("fork")
     with ctx.Pool(procs) as pool:
         return pool.map(fn, items, chunksize=chunksize)
